@@ -4951,6 +4951,19 @@ class PyCdlib:
             # all want exactly one entry per directory.
             raise pycdlibexception.PyCdlibInvalidInput('Cannot make a hard link to a directory')
 
+        if fmode == 0 and self.rock_ridge:
+            # Only an ISO9660 old path comes with a Rock Ridge file mode.  If
+            # the new record gets Rock Ridge it needs one, since a mode of 0
+            # doesn't even say that this is a file.  Use the mode of another
+            # Rock Ridge name of the same contents if there is one, and the
+            # conservative mode that add_fp() falls back to otherwise.
+            fmode = 0o0100444
+            if old_rec.inode is not None:
+                for rec, is_pvd_unused in old_rec.inode.linked_records:
+                    if isinstance(rec, dr.DirectoryRecord) and rec.rock_ridge is not None:
+                        fmode = rec.rock_ridge.get_file_mode()
+                        break
+
         if isinstance(old_rec, dr.DirectoryRecord) and old_rec.data_continuation is not None:
             # A very large file is made up of several Directory Records that
             # directly follow each other, each with an Inode of its own for
